@@ -191,6 +191,18 @@ class ProgGen:
             return e if e is not None else self.int_lit()
         if c == 'len':
             cands = self.vars_of(lambda v: (is_arr(v.t) or v.t == 'string') and v.init)
+            if self.feat('strings') and self.chance(0.35):
+                # .length of something that has to be computed first
+                k = r.randrange(3)
+                if k == 0:
+                    e = self.gen_elem(('string',), d - 1)
+                    if e is not None:
+                        return ('len', e)
+                if k == 1:
+                    e = self.gen_call(('string',), d - 1)
+                    if e is not None:
+                        return ('len', e)
+                return ('len', ('is', self.gen_string(d - 1), arr('byte', True)))
             if cands:
                 return ('len', ('var', r.choice(cands)[0]))
             if self.feat('strings'):
